@@ -80,21 +80,36 @@ def _tk():
     return _TK
 
 
-def impl_results(data: Any, bits: int, ncalls: int) -> list[int]:
+def impl_results(data: Any, bits: int, ncalls: int, via: str = 'ctor') -> list[int]:
     """Run the real Tokenizer `ncalls` times (or until it raises); encode as TokEnum.enc_results does.
     A foreign exception (anything that is not the tokenizer's TokenSyntaxError) is encoded as [4, ...] and never
     matches the model."""
     Tokenizer, TokenSyntaxError = _tk()
     try:
         with time_limit():
-            return _impl_results(Tokenizer, TokenSyntaxError, data, bits, ncalls)
+            return _impl_results(Tokenizer, TokenSyntaxError, data, bits, ncalls, via)
     except ImplTimeout:
-        note_hang('Tokenizer', (data if isinstance(data, str) else '<chunks>', _OPTS[bits], ncalls))
+        note_hang('Tokenizer', (data if isinstance(data, str) else '<chunks>', _OPTS[bits], ncalls, via))
         return list(HANG)
 
 
-def _impl_results(Tokenizer, TokenSyntaxError, data: Any, bits: int, ncalls: int) -> list[int]:
-    tk = Tokenizer(data, None, **_OPTS[bits])
+ALL_OPTS = 127
+
+
+def make_tokenizer(Tokenizer, data: Any, bits: int, via: str = 'ctor', filename: Any = None):
+    """A tokenizer with the option vector `bits`.  via='ctor': options passed to the constructor; via='attr': constructed with
+    EVERY option the other way round, then each option set through its public (documented, settable) attribute - an option that
+    is cached at construction time (a private attribute derived from it in __init__) then behaves as its opposite."""
+    if via == 'ctor':
+        return Tokenizer(data, filename, **_OPTS[bits])
+    tk = Tokenizer(data, filename, **_OPTS[bits ^ ALL_OPTS])
+    for k, v in _OPTS[bits].items():
+        setattr(tk, k, v)
+    return tk
+
+
+def _impl_results(Tokenizer, TokenSyntaxError, data: Any, bits: int, ncalls: int, via: str = 'ctor') -> list[int]:
+    tk = make_tokenizer(Tokenizer, data, bits, via)
     out: list[int] = []
     for _ in range(ncalls):
         try:
@@ -510,6 +525,7 @@ def get_token_tree_group(translated: bool, hs_rows: bool = False, next_char: boo
         'tokenizer_class_binds_no_shared_data_attribute': 'tokenizer_class_binds_no_shared_data_attribute',
         'tokenizer_functions_read_only_modelled_state': 'tokenizer_functions_read_only_modelled_state',
         'tokenizer_functions_write_only_modelled_state': 'tokenizer_functions_write_only_modelled_state',
+        'tokenizer_options_are_read_from_the_public_attribute_at_call_time': 'tokenizer_options_are_read_from_the_public_attribute_at_call_time',
     })
     if next_char:
         obs['next_char_rows_are_the_model'] = 'next_char_rows_are_the_model'
